@@ -143,6 +143,49 @@ func runC08(ctx *Ctx, c c08Case) {
 	}
 }
 
+// a streaming out-port: the FIFO items leave the producer in the order in which its inputs arrived, whatever the
+// timing of the producing commands (checked behind the consumer, whose own out-port keeps its arrival order)
+func streamOrder(ctx *Ctx, n int, sleeps []int, depth int) {
+	paths := []string{}
+	pre := map[string]string{}
+	var cs strings.Builder
+	cs.WriteString("case {i:in|basename} in ")
+	for i := 0; i < n; i++ {
+		p := fmt.Sprintf("i%02d.txt", i)
+		if depth > 0 && i%2 == 0 { // the task of this input has a deep directory tree to create before it runs
+			p = strings.Repeat("d/", depth) + p
+		}
+		paths = append(paths, p)
+		pre[p] = p + "\n"
+		cs.WriteString(fmt.Sprintf("i%02d*) sleep 0.%03d;; ", i, sleeps[i]))
+	}
+	cs.WriteString("esac")
+	d := &Desc{Name: "c08stream", Max: 2 * n, Nodes: []Node{{Name: "src", Kind: "filesource", Paths: paths},
+		{Name: "prod", Kind: "proc", Cmd: "( " + cs.String() + " ; cat {i:in} > {os:out} )", Outs: map[string]string{"out": "{i:in}.stream"}},
+		{Name: "cons", Kind: "proc", Cmd: "( cat {i:in} > {o:out} )", Outs: map[string]string{"out": "{i:in}.copy"}},
+		{Name: "rec", Kind: "recorder"}},
+		Edges: []Edge{{From: "src.out", To: "prod.in"}, {From: "prod.out", To: "cons.in"}, {From: "cons.out", To: "rec.in"}}}
+	rr := RunWorkflow(d, RunOpts{Pre: pre, Timeout: 30e9})
+	defer os.RemoveAll(rr.Dir)
+	ctx.Res.Eval(fmt.Sprintf("stream-order n=%d %v depth=%d", n, sleeps, depth), true, sleeps)
+	ctx.Res.Count("streaming-out-port")
+	if rr.Exit != 0 {
+		ctx.Res.Disagree(Violation{What: fmt.Sprintf("streaming order workflow exited %d: %s", rr.Exit, tail(rr.Stderr)), Witness: sleeps})
+		return
+	}
+	got := readRec(rr.Dir, "rec")
+	for i, g := range got {
+		g = g[strings.LastIndex(g, "/")+1:]
+		if want := fmt.Sprintf("i%02d.txt.stream.copy", i); g != want {
+			ctx.Res.Violate(Violation{What: fmt.Sprintf("items of the streaming out-port reached the consumer in the order %v: item %d is %s, arrival order requires %s", got, i, g, want), Class: "c08.order", Witness: sleeps})
+			break
+		}
+	}
+	if len(got) != n {
+		ctx.Res.Violate(Violation{What: fmt.Sprintf("%d of %d streamed items arrived", len(got), n), Class: "c08.count", Witness: sleeps})
+	}
+}
+
 func checkC08(ctx *Ctx) {
 	ctx.Res.Rule = "chains of 1-3 processes over 2-8 items whose per-item command durations are random (later items usually finish long before earlier ones; in a third of the cases the outputs of some items exist before the run, so that their tasks are skipped), maxConcurrentTasks 1-8, SCIPIPE_BUFSIZE 1-3 or 128, optional fan-in of a second upstream into the last port; recorder components after every process; non-trivial = some later item is faster than an earlier one and more than one slot; distinct by case. Checks: recorded order equals arrival order on every out-port, per-sender order through fan-in, counts, and per process goroutine the hook trace's dequeue sequence is a prefix of its accept sequence."
 	r := NewRng(ctx.Seed)
@@ -168,6 +211,10 @@ func checkC08(ctx *Ctx) {
 			runC08(ctx, cases[i])
 		}
 	})
+	streamOrder(ctx, 4, []int{90, 60, 30, 1}, 0)
+	streamOrder(ctx, 3, []int{1, 80, 1}, 0)
+	streamOrder(ctx, 6, []int{1, 1, 1, 1, 1, 1}, 300)
+	streamOrder(ctx, 6, []int{40, 1, 40, 1, 40, 1}, 200)
 	ctx.Res.Extra["proc_sem"] = ctx.Drv.Ask("proc.sem")
 	resp := ctx.Drv.Ask("proc.search", "3", "10")
 	ctx.Res.Extra["model_search"] = resp
